@@ -122,12 +122,45 @@ def audit_git(ctx, items, label):
     shutil.rmtree(repo, ignore_errors=True)
 
 
+def audit_rendered(ctx, items):
+    """binding C for the renderer: git must read the files the specification rendered as the states they were rendered from"""
+    repo = os.path.join(ctx.work, "audit-rendered")
+    shutil.rmtree(repo, ignore_errors=True)
+    os.makedirs(repo)
+    git(["init", "-q", "."], cwd=repo, check=True)
+    big = [it for it in items if len(it[0]) > 4000]
+    small = [it for it in items if len(it[0]) <= 4000]
+    k = 400 if ctx.thorough else 50
+    pick = (small if len(small) <= k else ctx.rng.sample(small, k)) + big[: (40 if ctx.thorough else 10)]
+    for ib, entries in pick:
+        with open(os.path.join(repo, ".git", "index"), "wb") as f:
+            f.write(bytes(ib))
+        listed, err = W.git_listing(repo)
+        if listed is None or listed != entries:
+            audit_mismatch(ctx, "IndexFormat.Render", {"git_error": err[-200:], "git_entries": None if listed is None else len(listed), "spec_entries": len(entries),
+                                                        "len": len(ib)})
+        p = git(["fsck", "--no-dangling", "--connectivity-only"], cwd=repo, timeout=300)
+        if "index file corrupt" in p.stderr.decode("utf-8", "replace"):
+            audit_mismatch(ctx, "IndexFormat.Render (checksum)", {"len": len(ib)})
+    ctx.log("audit rendered: git reads %d specification-rendered index files as the states they were rendered from" % len(pick))
+    ctx.cov["git_audited"] = ctx.cov.get("git_audited", 0) + len(pick)
+    shutil.rmtree(repo, ignore_errors=True)
+
+
 def run(ctx):
     binary = ctx.build("vh-c25")
     cases = ctx.tlc_gen("index", "IndexWrite_Gen", consts={"Family": '"flags"', "MaxPaths": 3 if ctx.thorough else 2}, workers=6, timeout=3000)
     cases += ctx.tlc_gen("index", "IndexWrite_Gen", consts={"Family": '"paths"', "PathVersions": "{2, 4}" if ctx.thorough else "{2}"}, workers=6, timeout=3000)
     ctx.cov["exhaustive"] = True
-    ecases = [{"input": fill(c["input"], c["input_eoie_pre"]), "op": c["op"], "opts": OPTS} for c in cases]
+    # states of the "paths" family are assembled through the API (dangerously_push_entry + sort_entries), the others are
+    # loaded from the file the specification rendered
+    ecases = []
+    for c in cases:
+        ec = {"input": fill(c["input"], c["input_eoie_pre"]), "op": c["op"], "opts": OPTS}
+        if c["family"] == "paths":
+            ec["build"] = c["state_entries"]
+        ecases.append(ec)
+    audit_rendered(ctx, [(ec["input"], c["state_entries"]) for ec, c in zip(ecases, cases)])
     results = ctx.harness(binary, ecases, timeout=3000)
     events, owner = [], []
     for ci, (c, r) in enumerate(zip(cases, results)):
@@ -147,7 +180,7 @@ def run(ctx):
     n_gen = len(events)
 
     # B: git-made indices, mutated through the API; the expected stored state is the in-memory state the executor reports
-    nw = 60 if ctx.thorough else 12
+    nw = 60 if ctx.thorough else 8
     worlds = []
     for k in range(nw):
         feats = [ctx.rng.choice(["v2", "v4"])] + [f for f in ("threads", "ita", "skipwt", "assume", "conflict", "sparse", "longpath", "notree")
@@ -171,7 +204,7 @@ def run(ctx):
             if "bytes" not in o:
                 ctx.violation({"kind": "write", "case": dict(c, opts=[o["opt"]]), "classes": ["write-failed"], "result": o})
                 continue
-            expect = {"version": 0, "entries": strip_other(mem["entries"]),
+            expect = {"version": 2, "entries": strip_other(mem["entries"]),
                       "tree": mem["tree"] if o["opt"] in ("all", "tree") else {"present": False},
                       "sdir": mem["sparse"], "eoie": o["opt"] in ("all", "eoie")}
             pending.append((o, expect, ("world", wi, o["opt"])))
@@ -189,7 +222,7 @@ def run(ctx):
     rejected = set(rej)
     for i, rs in zip(rej, reasons):
         kind, ci, opt = owner[i]
-        case = ({"input": ecases[ci]["input"], "op": cases[ci]["op"], "opts": [opt], "expect": events[i]["expect"], "eoie_pre": events[i]["eoie_pre"]}
+        case = (dict(ecases[ci], opts=[opt], expect=events[i]["expect"], eoie_pre=events[i]["eoie_pre"])
                 if kind == "gen" else dict(wcases[ci], opts=[opt]))
         key = "+".join(rs) + ("/op=" + case["op"]["kind"])
         counts[key] += 1
@@ -201,7 +234,7 @@ def run(ctx):
 
     # C: git on the written files the reference reader accepted (and a few it rejected are reported above already)
     ok = [i for i in range(len(events)) if i not in rejected]
-    pick = ok if len(ok) <= (1500 if ctx.thorough else 250) else ctx.rng.sample(ok, 1500 if ctx.thorough else 250)
+    pick = ok if len(ok) <= (500 if ctx.thorough else 100) else ctx.rng.sample(ok, 500 if ctx.thorough else 100)
     audit_git(ctx, [(events[i]["out"], events[i]["expect"]["entries"], {"owner": list(owner[i])}) for i in pick
                     if not events[i]["expect"]["sdir"]], "written")
     c = cases[len(cases) // 2]
@@ -219,7 +252,7 @@ def run(ctx):
 def replay(ctx, rec):
     binary = ctx.build("vh-c25")
     c = rec["case"]
-    ec = {k: c[k] for k in ("input", "path", "op", "opts") if k in c}
+    ec = {k: c[k] for k in ("input", "build", "path", "op", "opts") if k in c}
     r = ctx.harness(binary, [ec])[0]
     g = r.get("got")
     if g is None or "load_error" in g:
@@ -233,7 +266,7 @@ def replay(ctx, rec):
             ev = event(o, c["expect"], c["eoie_pre"])
         else:
             mem = g["memory"]
-            expect = {"version": 0, "entries": strip_other(mem["entries"]), "tree": mem["tree"] if o["opt"] in ("all", "tree") else {"present": False},
+            expect = {"version": 2, "entries": strip_other(mem["entries"]), "tree": mem["tree"] if o["opt"] in ("all", "tree") else {"present": False},
                       "sdir": mem["sparse"], "eoie": o["opt"] in ("all", "eoie")}
             ev = event(o, expect, eoie_pres(ctx, [o["bytes"]])[0])
         if ctx.tlc_trace("index", "IndexWrite_Trace", [ev]):
